@@ -20,8 +20,10 @@ func c01Cases(tier string) []*space.Case {
 	if tier == "thorough" {
 		base = append(base, space.F1("X", "my_field")...)
 		base = append(base, space.F2(space.Representatives(), false)...)
-		base = append(base, space.F3(space.Representatives())...)
+		base = append(base, space.F3(space.PairRepresentatives())...)
+		base = append(base, space.F2([][2]string{{"string", "single"}, {"string", "repeated"}, {"string", "map"}, {"msgNullable", "single"}, {"msgNonNull", "repeated"}, {"string", "oneof"}, {"msgNullable", "oneof"}, {"customBool", "single"}}, true)...)
 	} else {
+		base = append(base, space.F2Sample(space.Representatives())...)
 		base = append(base, space.F1("X")...)
 		base = append(base, space.F2(space.Representatives(), false)...)
 	}
